@@ -35,6 +35,7 @@ FILE = "LdarModel/Props/C19.lean"
 SIG_CLASH = "C19:names:clash-with-existing-program"
 SIG_BASECLASH = "C19:baseline-changed:clash-with-varied-name"
 SIG_METHCLASH = "C19:names:method-clash-with-existing-method"
+SIG_BASEM = "C19:names:methods-level-clash-with-baseline-name"
 
 
 def lean(lines):
@@ -247,16 +248,25 @@ def oracle_sets(ctx, base, level, n, lists_by_target, rv, info, inp, clash=None)
             ctx.violate(f"C19:frame:virtual_world:{level}", "virtual world of the set differs from the base", inp)
         progs = s["programs"]
         if baseline not in progs or T.canon(progs[baseline]) != T.canon(base["programs"][baseline]):
-            ctx.violate(SIG_BASECLASH if (clash == "baseline" and level == "programs") else f"C19:baseline-changed:{level}",
+            f19b = (clash == "baseline" and level == "programs" and baseline in progs
+                    and any(f"{pn}_{k}" == baseline for pn in lists_by_target for k in range(n)))
+            ctx.violate(SIG_BASECLASH if f19b else f"C19:baseline-changed:{level}",
                         "the baseline program is not carried over unchanged", inp)
         if level == "programs":
             want = {baseline}
             for pn, lists in lists_by_target.items():
                 for k in range(n):
                     want.add(f"{pn}_{k}")
-            if set(progs) != want or len(progs) != 1 + n * len(lists_by_target):
-                ctx.violate({"program": SIG_CLASH, "baseline": SIG_BASECLASH}.get(clash, "C19:names:programs"),
-                            f"programs of the set are {sorted(progs)} instead of {sorted(want)}", inp)
+            n_want = 1 + n * len(lists_by_target)     # every listed program once per set, nothing overwritten
+            if set(progs) != want or len(progs) != n_want:
+                # recorded case F19b only: the BASELINE itself is called <program>_<i> and is overwritten by that copy
+                # (name set as expected, exactly one entry fewer).  A clash of a varied copy with a NON-baseline
+                # original program must lose nothing at this level (originals are removed first): a violation.
+                f19b = (clash == "baseline" and any(f"{pn}_{k}" == baseline for pn in lists_by_target for k in range(n))
+                        and set(progs) == want and len(progs) == n_want - 1
+                        and T.canon(progs[baseline]) != T.canon(base["programs"][baseline]))
+                ctx.violate(SIG_BASECLASH if f19b else "C19:names:programs",
+                            f"programs of the set are {sorted(progs)} ({len(progs)}) instead of {sorted(want)} ({n_want})", inp)
                 continue
             for pn, lists in lists_by_target.items():
                 for k in range(n):
@@ -269,8 +279,18 @@ def oracle_sets(ctx, base, level, n, lists_by_target, rv, info, inp, clash=None)
             sens = info["sens"]
             want = {baseline} | {f"{sens}_{k}" for k in range(n)}
             if set(progs) != want or len(progs) != 1 + n:
-                ctx.violate(SIG_CLASH if clash in ("program", "baseline") else "C19:names:methods-level-programs",
-                            f"programs of the set are {sorted(progs)} instead of {sorted(want)}", inp)
+                # recorded cases, in their exact shape only:
+                #  F19a - a NON-baseline base program is already called <sens>_<i>: exactly those copies are missing
+                #  F19d - the BASELINE is called <sens>_<i>: the copy of that set is missing, the baseline sits under the name
+                others = {p for p in base["programs"] if p != baseline}
+                lost = {f"{sens}_{k}" for k in range(n)} & others
+                sig = "C19:names:methods-level-programs"
+                if clash == "program" and lost and set(progs) == want - lost:
+                    sig = SIG_CLASH
+                elif clash == "baseline" and baseline in {f"{sens}_{k}" for k in range(n)} and set(progs) == want \
+                        and len(progs) == n and T.canon(progs[baseline]) == T.canon(base["programs"][baseline]):
+                    sig = SIG_BASEM
+                ctx.violate(sig, f"programs of the set are {sorted(progs)} ({len(progs)}) instead of {sorted(want)} ({1 + n})", inp)
                 continue
             bp = base["programs"][sens]
             for k in range(n):
@@ -454,8 +474,16 @@ def run(ctx):
                     n = rng.choice([2, 3])
                     desc, lbt = gen_case(rng, base, level, n)
                     if level == "programs":
-                        desc = [d for d in desc if d["Program Name"] == "P_OGI"] or desc
-                        lbt = {k: v for k, v in lbt.items() if k in [d["Program Name"] for d in desc]}
+                        # always vary P_OGI itself (programs P_OGI + P_OGI_1, or baseline P_OGI_0; n >= 2 > k)
+                        d1, l1 = gen_description(rng, base["programs"]["P_OGI"], n,
+                                                 exclude_top=("program_name", "method_labels", "methods"), kmax=3)
+                        desc, lbt = [{"Program Name": "P_OGI", "Program Sensitivity Parameters": d1}], {"P_OGI": l1}
+                        if kind == "program" and rng.random() < 0.5:
+                            # both X and X_1 listed: 2n distinctly named copies expected
+                            d2, l2 = gen_description(rng, base["programs"]["P_OGI_1"], n,
+                                                     exclude_top=("program_name", "method_labels", "methods"), kmax=2)
+                            desc.append({"Program Name": "P_OGI_1", "Program Sensitivity Parameters": d2})
+                            lbt["P_OGI_1"] = l2
                     if kind == "method":
                         m = base["programs"]["P_OGI"]["methods"]["OGI"]
                         d1, l1 = gen_description(rng, m, n, exclude_top=("method_name",), kmax=3)
